@@ -20,6 +20,8 @@ func selftest(which string, args []string) int {
 		return selftestDeterminism(args)
 	case "race":
 		return selftestRace()
+	case "fsnotify":
+		return selftestFsnotify()
 	}
 	die(2, "unknown selftest %s", which)
 	return 2
@@ -185,5 +187,19 @@ func selftestRace() int {
 		return 1
 	}
 	fmt.Println("selftest-race: ok (the baton carries no happens-before edge; the program's own locks do)")
+	return 0
+}
+
+// selftestFsnotify calibrates the simulated file system's inotify/fsnotify model against the real library on tmpfs.
+func selftestFsnotify() int {
+	bi := ensureBuild(false)
+	cmd := exec.Command(bi.Simrun, "-engine", "fscal")
+	out, err := cmd.CombinedOutput()
+	fmt.Print(string(out))
+	if err != nil {
+		fmt.Println("selftest-fsnotify: FAILED: the model and fsnotify v1.8.0 disagree (see MISMATCH lines)")
+		return 1
+	}
+	fmt.Println("selftest-fsnotify: ok (every scripted update produces the same events and leaves the same watch list in the model and with the real library)")
 	return 0
 }
